@@ -18,7 +18,8 @@ import (
 
 func init() {
 	fw.Register(&fw.Prop{
-		ID: "C08",
+		ID:       "C08",
+		Parallel: 4, // cases are judged on 4 goroutines per shard: the library functions are stateless, shared state inside them shows up as wrong verdicts
 		Rule: "commute: (curve in {secp256k1, P-256}, seed, path, non-hardened index from {0, 1, 2^31-1, random}): DeriveChild on the extended private key then Public() vs. DeriveChild on Public(): key bytes, chain code, fingerprint. shift: (curve, scalar k, 32-byte shift) with shift in {0, 1, k, n-k, n-k+-1, n-1, n, n+1, 2^256-1, random < n, random >= n} and k in {1, 2, n-1, (n+-1)/2, random}: PrivateKey.Shift and PublicKey.Shift must both report ErrInvalidKey or both succeed with pub' = point(priv'), and agree with the affine model; no panic. " +
 			"Non-trivial: distinct shift cases in a named corner class and all commute cases.",
 		Assumptions: []string{"math/big", "the affine model in harness/oracle/weier (self-tested)"},
